@@ -46,11 +46,23 @@ theorem slice_length_of_le (b : Bytes) (off len : Nat) (h : off + len ≤ b.leng
     (slice b off len).length = len := by
   simp [slice]; omega
 
+theorem sectionLimit_eq (off n : Int) (h0 : 0 ≤ off) (hn : 0 ≤ n) (h : off + n ≤ maxI64) :
+    sectionLimit off n = off + n := by
+  unfold sectionLimit wrap64 maxI64 at *
+  have : (9223372036854775807 - n + 9223372036854775808) % 18446744073709551616
+      = 9223372036854775807 - n + 9223372036854775808 := Int.emod_eq_of_lt (by omega) (by omega)
+  rw [this]
+  split
+  · rfl
+  · omega
+
 theorem sectionRead_ok (buf : Bytes) (off n : Int) (cur want : Nat)
-    (h0 : 0 ≤ off) (h1 : (cur : Int) + want ≤ n) (h2 : off.toNat + cur + want ≤ buf.length) :
+    (h0 : 0 ≤ off) (h1 : (cur : Int) + want ≤ n) (h2 : off.toNat + cur + want ≤ buf.length)
+    (hov : off + n ≤ maxI64) :
     sectionRead buf off n cur want = some (slice buf (off.toNat + cur) want) := by
   unfold sectionRead
   have hs : (off + (cur : Int)).toNat = off.toNat + cur := by omega
+  rw [sectionLimit_eq off n h0 (by omega) hov]
   simp only [show ¬ off < 0 by omega, ↓reduceIte, show ¬ (off + ↑cur + ↑want > off + n) by omega,
     readAt, hs]
   have := slice_length_of_le buf (off.toNat + cur) want h2
@@ -65,7 +77,7 @@ theorem readDescriptors_ok (buf : Bytes) (doff dsize : Int) (rds : List RawDesc)
     (h0 : 0 ≤ doff) (hsz : (585 * rds.length : Int) ≤ dsize)
     (hlen : rds ≠ [] → doff.toNat + 585 * rds.length ≤ buf.length)
     (htab : slice buf doff.toNat (585 * rds.length) = encTable rds)
-    (hv : ∀ d ∈ rds, d.Valid) (hl : ∀ d ∈ rds, loadable d = true)
+    (hv : ∀ d ∈ rds, d.Valid) (hl : ∀ d ∈ rds, loadable d = true) (hov : doff + dsize ≤ maxI64)
     (n i : Nat) (acc : List RawDesc) (hni : i + n = rds.length) :
     readDescriptors buf doff dsize n i acc = .ok (acc ++ rds.drop i) := by
   induction n generalizing i acc with
@@ -78,7 +90,7 @@ theorem readDescriptors_ok (buf : Bytes) (doff dsize : Int) (rds : List RawDesc)
     obtain ⟨d, hd⟩ : ∃ d, rds[i]? = some d := ⟨rds[i], by simp [hi]⟩
     have hmem : d ∈ rds := List.mem_of_getElem? hd
     unfold readDescriptors
-    rw [sectionRead_ok buf doff dsize (585 * i) 585 h0 (by omega) (by omega)]
+    rw [sectionRead_ok buf doff dsize (585 * i) 585 h0 (by omega) (by omega) hov]
     have hsl : slice buf (doff.toNat + 585 * i) 585 = encDesc d := by
       rw [← slice_slice buf doff.toNat (585 * rds.length) (585 * i) 585 (by omega), htab]
       exact encTable_slot rds i d hd
@@ -109,17 +121,19 @@ structure Loadable (h : Hdr) (rds : List RawDesc) (buf : Bytes) : Prop where
   htab : slice buf h.doff.toNat (585 * rds.length) = encTable rds
   dv : ∀ d ∈ rds, d.Valid
   dl : ∀ d ∈ rds, loadable d = true
+  nov : h.doff + h.dsize ≤ maxI64
 
 theorem loadContainer_ok (st : Store) (h : Hdr) (rds : List RawDesc) (L : Loadable h rds st.buf) :
     loadContainer st = .ok { h := h, rds := rds, minIDs := populateMinIDs rds, st := st } := by
   unfold loadContainer
-  rw [sectionRead_ok st.buf 0 128 0 128 (by omega) (by omega) (by have := L.hlen; simpa using this)]
+  rw [sectionRead_ok st.buf 0 128 0 128 (by omega) (by omega) (by have := L.hlen; simpa using this)
+    (by unfold maxI64; omega)]
   simp only [Int.toNat_zero, Nat.zero_add, L.hhdr, decHdr_encHdr h L.hv]
   simp only [L.magic, L.version, bne_self_eq_false, Bool.false_eq_true, ↓reduceIte]
   have ht : ¬ h.dtotal < 0 := by rw [L.total]; omega
   simp only [ht, ↓reduceIte]
   have hn : h.dtotal.toNat = rds.length := by rw [L.total]; simp
-  rw [hn, readDescriptors_ok st.buf h.doff h.dsize rds L.doff L.dsize L.tlen L.htab L.dv L.dl
+  rw [hn, readDescriptors_ok st.buf h.doff h.dsize rds L.doff L.dsize L.tlen L.htab L.dv L.dl L.nov
     rds.length 0 [] (by omega)]
   simp
 
